@@ -130,7 +130,7 @@ def gen_behaviours(n, seed, wd, broken=None):
                             origin="behaviour of the broken design %s" % broken if broken else "behaviour of the shipped design"))
     if not out:
         raise Inconclusive("SignerSim produced no behaviours")
-    return out[:n]
+    return stable_sample(out, n, seed)
 
 
 # ------------------------------------------------------------------ behaviour -> scenario
@@ -372,7 +372,7 @@ def run(prop, tier, seed):
         attacks = model_phase(prop, tier, wd, info)
         nsim = 40 if tier == "quick" else 400
         behs = gen_behaviours(nsim, seed, wd)
-        lock_atk = lock_order_attacks(wd, info) if prop == "C15" else []
+        lock_atk = lock_order_attacks(wd, info)
         if prop == "C04":
             # every interleaving of fetch/check/store steps that a design WITHOUT effective locking admits
             attacks += gen_behaviours(nsim * 2, seed + 1, wd, broken=dict(LockMode="none"))
@@ -384,8 +384,8 @@ def run(prop, tier, seed):
                 sid = "%s-%s-%s%d" % (prop, cname, "atk" if b["attack"] else "sim", i)
                 scenarios.append(scenario_for(b, sid, conc))
                 meta[sid] = b
-            if prop == "C15" and ci == 0:
-                for n, (a, par) in enumerate(lock_atk):
+            if ci == 0:
+                for n, (a, par) in enumerate(lock_atk if prop == "C15" else lock_atk[:12]):
                     sid = "%s-%s-lockorder%d" % (prop, cname, n)
                     scenarios.append(dict(id=sid, world=dict(nkeys=3), conc=conc, ops=[par]))
                     meta[sid] = None
@@ -408,8 +408,13 @@ def run(prop, tier, seed):
                 verdict.violation("deadlock:" + sid, "requests wait on each other for ever in scenario %s: %s" % (sid, blocked[-4:]),
                                   dict(scenario=sc, trace=evs[-60:]))
         else:
-            if deadlocks:
-                print("NOTE: %d scenario(s) deadlocked (decided under C15); excluded from the linearizability check" % len(deadlocks))
+            # requests that wait on each other for ever are never answered: no one-at-a-time order of the requests explains a history
+            # in which an invoked request gets no outcome at all (the same observation decides C15)
+            for sid, evs in deadlocks:
+                sc = [s for s in scenarios if s["id"] == sid][0]
+                blocked = [e for e in evs if e["ev"] == "Blocked"]
+                verdict.violation("unanswered:" + sid, "requests of scenario %s are never answered (they wait on each other for ever: %s); a sequential run answers every request"
+                                  % (sid, blocked[-4:]), dict(scenario=sc, trace=evs[-60:], deadlock=True))
         lines, index = [], []
         if prop == "C04":
             dl = {sid for sid, _ in deadlocks}
@@ -536,10 +541,10 @@ def replay(prop, path):
         events, rc, err = run_driver([obj["scenario"]], wd, tag="replay")
         for e in events:
             print(json.dumps(e))
-        if prop == "C15":
+        if prop == "C15" or obj.get("deadlock"):
             dead = any(e["ev"] == "Sched" and e["deadlock"] for e in events)
             if dead:
-                print("VIOLATION property=C15 replay=%s" % path)
+                print("VIOLATION property=%s replay=%s" % (prop, path))
                 return 1
             return 0 if rc == 0 else 2
         lines = []
